@@ -384,7 +384,25 @@ theorem lowerE_mono : ∀ (e : Expr) (c : Nat) (code : Code) (v : Value) (c' : N
     have ⟨m1, _⟩ := lowerCtorArgs_mono args c ca xs c1 h1
     exact ⟨by omega, ⟨c1, rfl, by omega⟩⟩
   | .list .., _, _, _, _, h => by simp [lowerE] at h
-  | .fstr .., _, _, _, _, h => by simp [lowerE] at h
+  | .fstr ps, c, code, v, c', h => by
+    simp [lowerE, Option.bind_eq_some_iff] at h
+    obtain ⟨cp, c1, h1, _, rfl, rfl⟩ := h
+    have m1 := lowerParts_mono ps _ _ cp c1 h1
+    exact ⟨by omega, ⟨c, rfl, by omega⟩⟩
+theorem lowerParts_mono : ∀ (ps : Parts) (acc : Var) (c : Nat) (code : Code) (c' : Nat),
+    lowerParts ps acc c = some (code, c') → c ≤ c'
+  | .nil, acc, c, code, c', h => by simp [lowerParts] at h; omega
+  | .str s rest, acc, c, code, c', h => by
+    simp [lowerParts, Option.bind_eq_some_iff] at h
+    obtain ⟨cr, h1, _⟩ := h
+    have := lowerParts_mono rest acc (c + 1) cr c' h1
+    omega
+  | .expr e rest, acc, c, code, c', h => by
+    simp [lowerParts, Option.bind_eq_some_iff] at h
+    obtain ⟨ce, ve, c1, h1, cr, h2, _⟩ := h
+    have ⟨m1, _⟩ := lowerE_mono e c ce ve c1 h1
+    have := lowerParts_mono rest acc (c1 + 2) cr c' h2
+    omega
 theorem lowerCtorArgs_mono : ∀ (es : Exprs) (c : Nat) (code : Code) (xs : List Var) (c' : Nat),
     lowerCtorArgs es c = some (code, xs, c') → c ≤ c' ∧ ∀ x ∈ xs, ∃ k, x = .t k ∧ k < c'
   | .nil, c, code, xs, c', h => by simp [lowerCtorArgs] at h; obtain ⟨_, rfl, rfl⟩ := h; simp
@@ -496,6 +514,8 @@ def Value.vars : Value → List Var
   | .neg x => [x]
   | .callRt _ args => args
   | .call _ args => args
+  | .toStr x => [x]
+  | .append a b => [a, b]
   | .disc x => [x]
   | .cloneProj x _ _ => [x]
   | .cloneField x _ => [x]
@@ -671,7 +691,11 @@ theorem lowerE_valueBound (e : Expr) (c : Nat) (code : Code) (v : Value) (c' : N
       simp [Value.vars] at hk
       exact atv_bound ve c1 b1 hk.symm
   | list es => simp [lowerE] at h
-  | fstr ps => simp [lowerE] at h
+  | fstr ps =>
+    have hm := (lowerE_mono _ c code v c' h).2
+    simp [lowerE, Option.bind_eq_some_iff] at h
+    obtain ⟨_, _, _, _, rfl, _⟩ := h
+    obtain ⟨k', hk', hlt⟩ := hm; cases hk'; simp [Value.vars] at hk; omega
 
 /-! ### `match`: binders and patterns -/
 
